@@ -1,7 +1,7 @@
 (** C18 — Backoff specifications parse totally, exactly and with the documented defaults.
     Statements over the executable model Pure/Spec.v; [pf] is the strconv.ParseFloat oracle. *)
 From Coq Require Import ZArith List.
-From Garr Require Import Pure.F64 Pure.Retry Pure.Spec Pure.RetryProofs Pure.SpecProofs.
+From Garr Require Import Pure.F64 Pure.Retry Pure.Spec Pure.RetryProofs Pure.SpecProofs Pure.Builder Pure.BuilderProofs.
 Import ListNotations.
 Local Open Scope Z_scope.
 
@@ -37,3 +37,31 @@ Print Assumptions C18_accept_iff.
 Print Assumptions C18_reject.
 Print Assumptions C18_int_fields.
 Print Assumptions C18_layers_in_order.
+
+(** ---- all builder call sequences (Pure/Builder.v: the BackoffBuilder as a state machine) ----
+    After ANY sequence of BaseBackoffSpec / BaseBackoff (also nil) / WithLimit / WithJitter /
+    WithJitterBound / Build calls, a Build returns exactly what the calls made so far determine:
+    the last explicitly given base if there is one, else the LAST specification, with the layers
+    in the order they were added - the remembered (cached) base never shows. *)
+Theorem C18_builder_call_sequences : forall pf ops,
+  snd (bstep pf (fst (brun pf binit ops)) DoBuild) = Some (build_of_calls pf ops).
+Proof. exact builder_build_of_calls. Qed.
+
+(** building again gives the same backoff *)
+Theorem C18_builder_rebuild_same : forall pf ops,
+  snd (bstep pf (fst (brun pf binit (ops ++ [DoBuild]))) DoBuild) =
+  snd (bstep pf (fst (brun pf binit ops)) DoBuild).
+Proof. exact builder_rebuild_same. Qed.
+
+(** a specification given later - also after a Build - is the one that counts (an invalid one is refused) *)
+Theorem C18_builder_last_spec_wins : forall pf ops s,
+  last_base ops None = None ->
+  snd (bstep pf (fst (brun pf binit (ops ++ [SetSpec s]))) DoBuild) = Some (build_spec pf s (layers_of ops)).
+Proof. exact builder_last_spec_wins. Qed.
+
+(** no call sequence makes Build panic *)
+Theorem C18_builder_sequences_total : forall pf ops,
+  snd (bstep pf (fst (brun pf binit ops)) DoBuild) <> Some Panic.
+Proof. intros pf ops. apply builder_total. intros s ls. apply C18_builder_total. Qed.
+Print Assumptions C18_builder_call_sequences.
+Print Assumptions C18_builder_sequences_total.
